@@ -67,7 +67,8 @@ def classes(split=None):
     rv = lambda P: [0x000e]
 
     def code_h(P):       # LB;->h calls LA;->m2 and reads LA;->a2 : a second caller for the symmetry checks
-        return [0x0071, P.method('LA;', 'm2', 'V', ()), 0x0000, 0x0060, P.field('LB;', 'b1', 'I'), 0x001a, P.string('s-one'), 0x000e]
+        return [0x0071, P.method('LA;', 'm2', 'V', ()), 0x0000, 0x0060, P.field('LB;', 'b1', 'I'), 0x001a, P.string('s-one'),
+                0x0060, P.field('LB;', 'b2', 'I'), 0x000e]
     A = Cls('LA;', sfields=[Fld('a1', 'I', 9), Fld('a1', 'J', 9), Fld('a2', 'I', 9)],
             dmethods=[Mth('m1', 'V', (), 9, Code(2, 0, 1, code_m1)), Mth('m2', 'V', (), 9, Code(0, 0, 0, rv))],
             vmethods=[Mth('v1', 'V', (), 1, Code(1, 1, 0, rv))])
@@ -104,6 +105,15 @@ def classes(split=None):
             plain_extra2(P)
             for f in C.sfields:
                 P.field(C.name, f.name, f.type)
+    if split in ('B', 'B3'):
+        # the second file has one more field / method id in front of the others: the same member has different index
+        # numbers in the two files (an index only means something inside its own file)
+        plain_extra3 = extra
+
+        def extra(P):
+            plain_extra3(P)
+            P.field('L0;', 'q', 'I')
+            P.method('L0;', 'q', 'V', ())
     cl = {'A': [A], 'B': [B], None: [A, B], 'C': [C], 'ALL': [A, B, C], 'A3': [A], 'B3': [B]}[split]
     return cl, extra
 
@@ -213,6 +223,7 @@ def expected(operands, opcodes=None):
             (news if kind == 'new-instance' else consts).append(('LA;', M1, tg, off))
     calls.append(('LB;', H, ('LA;', 'm2', 'V', ()), 0))
     reads.append(('LB;', H, ('LB;', 'b1', 'I'), 6))
+    reads.append(('LB;', H, ('LB;', 'b2', 'I'), 14))
     strings.append(('LB;', H, 's-one', 10))
     return dict(calls=calls, reads=reads, writes=writes, strings=strings, news=news, consts=consts)
 
